@@ -66,13 +66,13 @@ class Run:
         r, m = ctx.query(main)
         self.q[r] += 1
         if r == "sat" and len(self.cex) < MAX_CEX_PER_INST:
-            self.cex.append({"ob": label, "inputs": concretize(m), "known_key": None, "extra": extra, "soft": soft})
+            self.cex.append({"ob": label, "inputs": concretize(m), "known_key": None, "extra": extra(m) if callable(extra) else extra, "soft": soft})
         for k, pred in known.items():
             pz = pred if not isinstance(pred, bool) else z3.BoolVal(pred)
             r2, m2 = ctx.query(z3.And(viol, pz))
             self.q["known:" + r2] += 1
             if r2 == "sat" and sum(1 for c in self.cex if c["known_key"] == k) < 1:
-                self.cex.append({"ob": label, "inputs": concretize(m2), "known_key": k, "extra": extra})
+                self.cex.append({"ob": label, "inputs": concretize(m2), "known_key": k, "extra": extra(m2) if callable(extra) else extra})
         self.final_s += time.time() - t0
         return r
 
